@@ -88,7 +88,14 @@ def _der_int(v):
 
 
 def ecdsa_sign(scalar, msg, k_seed=b"k"):
-    """Deterministic ECDSA over sha256(msg) (simulator side only; nothing verifies it here)."""
+    """Deterministic ECDSA over sha256(msg) (simulator side only; nothing verifies it here):
+    libsecp256k1 (RFC 6979) when available, the slow pure-Python ladder otherwise."""
+    try:
+        import secp256k1
+        key = secp256k1.PrivateKey(scalar.to_bytes(32, "big"), raw=True)
+        return key.ecdsa_serialize(key.ecdsa_sign(bytes(msg)))
+    except ImportError:   # pragma: no cover
+        pass
     z = int.from_bytes(hashlib.sha256(msg).digest(), "big")
     ctr = 0
     while True:
